@@ -366,6 +366,9 @@ def run_c02(tier):
         tasks.append(('mixed', c, ['', 'ab\nc']))
     for c in chunks(bigarith_family(), 5):
         tasks.append(('bigarith', c, [''], 400))
+    from .eng_compile import fam_highstack
+    for c in chunks(fam_highstack(), 50):
+        tasks.append(('highstack', c, ['ab\nc'], 400))
     for c in chunks(volume_family(), 1):
         tasks.append(('volume', c, ['ab\nc'], 60000))
     lf = labelflow_family()
